@@ -134,6 +134,17 @@ pub struct MessageInfo { pub sender: Addr, pub funds: Vec<Coin> }
 
 // ---- messages
 pub enum ReplyOn { Always, Error, Success, Never }
+impl vstd::std_specs::cmp::PartialEqSpecImpl for ReplyOn {
+    open spec fn obeys_eq_spec() -> bool { true }
+    open spec fn eq_spec(&self, other: &ReplyOn) -> bool { *self == *other }
+}
+impl PartialEq for ReplyOn {
+    fn eq(&self, o: &ReplyOn) -> (r: bool) {
+        match (self, o) { (ReplyOn::Always, ReplyOn::Always) => true, (ReplyOn::Error, ReplyOn::Error) => true, (ReplyOn::Success, ReplyOn::Success) => true, (ReplyOn::Never, ReplyOn::Never) => true, _ => false }
+    }
+}
+// cosmwasm_std::UNUSED_MSG_ID: the reply id of sub-messages that do not ask for a reply
+pub const UNUSED_MSG_ID: u64 = 0;
 pub enum BankMsg { Send { to_address: String, amount: Vec<Coin> }, Burn { amount: Vec<Coin> } }
 pub enum WasmMsg {
     Execute { contract_addr: String, msg: Binary, funds: Vec<Coin> },
